@@ -1297,11 +1297,15 @@ def r19_sizeless_formats_expand_as_argb(ck, P, rid='C10-R19'):
     argb = E.get('PIXMAN_a8r8g8b8')
     phi = None
     for x in f.insts():
-        if x.op == 'phi' and any(a[0] == 'c' and (int(a[1]) & 0xffffffff) == argb for a in x.a) and any(a[0] == 'a' for a in x.a):
+        if x.op == 'phi' and any(a[0] == 'c' for a in x.a) and any(a[0] == 'a' and f.params[a[1]][1] == 'i32' for a in x.a):
             phi = x
     if phi is None or argb is None:
-        raise AnalysisBroken('%s: no merge of the format parameter with PIXMAN_a8r8g8b8 in pixman_expand_to_float' % rid)
+        raise AnalysisBroken('%s: no merge of the format parameter with a constant format in pixman_expand_to_float' % rid)
     ck.saw(f)
+    subst = [int(a[1]) & 0xffffffff for a in phi.a if a[0] == 'c']
+    if any(v != argb for v in subst):
+        inv_ = {v: k_ for k_, v in E.items()}
+        ck.violation(R, f.name, 'substitute format', 'pixman_expand_to_float replaces a format without channel sizes by %s instead of PIXMAN_a8r8g8b8, the format its fetchers deliver: the alpha (or a colour channel) of every indexed, gray or YUV pixel is then read from the wrong bits - with x8r8g8b8 every palette entry widens to alpha 1.0 in the float pipeline while the 8-bit pipeline keeps the palette\'s alpha' % ', '.join(inv_.get(v, hex(v)) for v in subst if v != argb), phi.loc())
     k = [a for a in phi.a if a[0] == 'a'][0][1]
     keep = {(bb, phi.bb.id) for a, bb in zip(phi.a, phi.d['bb']) if a[0] == 'a'}
     n = 0
